@@ -386,7 +386,111 @@ class PwmToMappingInit(Contract):
                 8: LoopSpec(l8), 9: LoopSpec(l9)}
 
 
+class FastConvert(Contract):
+    """C12 (byte -> letter index conversion of a FASTA sequence in fimo): every byte X[i] in [0, len(mapping)) is
+    replaced by mapping[X[i]] - position by position, nothing else is written, every access inside its array (numba)."""
+    qualname = 'tangermeme.tools.fimo._fast_convert'
+    props = ('C12',)
+    modifies = ('X',)
+    use_at_calls = False
+
+    def make_args(self, cfg, A):
+        n, m = A.dim('n', 0), A.dim('m', 1)
+        X = A.tensor('X', 1, 'int', lib='np', shape=[n])
+        mp = A.tensor('mapping', 1, 'int', lib='np', shape=[m])
+        return [X, mp], {}
+
+    def pre(self, a, cfg):
+        return [O.forall_hyp([a.X.shape[0]], lambda i: And(a.X[i] >= 0, a.X[i] < a.mapping.shape[0]))]
+
+    def result(self, a, cfg):
+        return None
+
+    def post(self, a, r, cfg):
+        return same(a._live['X'], spec_tensor(a.X.shape, lambda i: a.mapping[a.X[i]], lib='np'), 'X-after')
+
+    def loops(self):
+        f = z3.Function('X', z3.IntSort(), z3.IntSort())
+
+        def d1(fr, it):
+            env = fr.env
+            X, mp = env['X'], env['mapping']
+            return spec_tensor(X.shape, lambda i: ite(i < it, mp[f(O.to_z3(i))], f(O.to_z3(i))), lib='np')
+        return {1: defined_loop({'X': d1})}
+
+    def random_inputs(self, cfg, rng):
+        import numpy
+        m = rng.randint(1, 12)
+        n = rng.randint(0, 9)
+        return [numpy.array([rng.randrange(m) for _ in range(n)], dtype='int8'), numpy.array([rng.randint(-1, 5) for _ in range(m)], dtype='int8')], {}
+
+
 from vf.contract import FragmentContract
+
+
+class TensorToIndices(FragmentContract):
+    """C12 (tensor input of fimo, the statement that turns a one-hot batch into letter indices): for a batch
+    X[n, c, l] = [c == w(n, l)] with an arbitrary index function w (a column with w outside [0, A) is all-zero: an
+    unknown character) the result is w(n, l) where the column is one-hot and -1 where it is all-zero - the encoding of
+    "unknown" that the scanner relies on; the input is not written."""
+    qualname = 'tangermeme.tools.fimo.fimo'
+    props = ('C12',)
+    loop_ordinal = None
+    key = 'tangermeme.tools.fimo.fimo#tensor-to-indices'
+    stmt_block = ('sequence_names = None', ('until', 'X = '))      # the first statement(s) of the tensor branch
+
+    def scopes(self, cfg):
+        return [{'default': 2}, {'default': 3}]
+
+    def make_env(self, cfg, A):
+        from vf.spec import onehot_from_idx
+        N, Ad, L = A.dim('N', 0), A.dim('A', 1), A.dim('L', 0)
+        w = z3.Function('w', z3.IntSort(), z3.IntSort(), z3.IntSort())
+        seqs = onehot_from_idx([N, Ad, L], lambda n, l: w(O.to_z3(n), O.to_z3(l)), ohe_dim=1)
+        return dict(sequences=seqs, _w=w, _A=Ad)
+
+    def post_env(self, b, a, outcome, cfg):
+        out = [('no-exception', not outcome.startswith('raise'))]
+        if not out[0][1]:
+            return out
+        X = a.X
+        out.append(('is-a-(N, L)-tensor', isinstance(X, Tn) and X.rank == 2))
+        if not out[-1][1]:
+            return out
+        S = b.sequences
+        out.append(('shape', And(O.eq(X.shape[0], S.shape[0]), O.eq(X.shape[1], S.shape[2]))))
+        if not O.any_sym(*S.shape) and not _symbolic_content(S):
+            ok = True        # concrete interpretation (replay): read the expected index off the real column
+            for n in range(int(S.shape[0])):
+                for l in range(int(S.shape[2])):
+                    col = [int(S.elem(n, c, l)) for c in range(int(S.shape[1]))]
+                    exp = col.index(1) if sum(col) == 1 else -1
+                    ok = ok and int(X.elem(n, l)) == exp
+            out.append(('letter index where the column is one-hot, -1 where it is all-zero', ok))
+            out.extend(same(a.sequences, b.sequences, 'sequences-unwritten'))
+            return out
+        w, Ad = b._w, b._A
+        out.append(('letter index where the column is one-hot, -1 where it is all-zero',
+                    O.forall(X.shape, lambda n, l: O.eq(X.elem(n, l), ite(And(0 <= w(O.to_z3(n), O.to_z3(l)), w(O.to_z3(n), O.to_z3(l)) < Ad), w(O.to_z3(n), O.to_z3(l)), -1)))))
+        out.extend(same(a.sequences, b.sequences, 'sequences-unwritten'))
+        return out
+
+    def replay_fragment(self, cfg, st):
+        """the real statement on a small one-hot batch with some all-zero columns"""
+        import torch
+        from vf.contract import replay_fragment_generic
+        shp = st.get('sequences.shape') or [2, 4, 5]
+        N, Ad, L = [max(0, int(v)) for v in shp]
+        if Ad < 1 or N * Ad * L > 4096 or L < 1 or N < 1:
+            return []
+        g = torch.Generator().manual_seed(3)
+        idx = torch.randint(-1, Ad, (N, L), generator=g)
+        S = torch.zeros(N, Ad, L, dtype=torch.int64)
+        for n in range(N):
+            for l in range(L):
+                if idx[n, l] >= 0:
+                    S[n, idx[n, l], l] = 1
+        return replay_fragment_generic(self._world, self, cfg, dict(sequences=S, _w=None, _A=Ad))
 
 
 class ScoreThreshold(FragmentContract):
@@ -451,7 +555,9 @@ class ScoreThreshold(FragmentContract):
 
 
 def register(world):
+    world.register(FastConvert())
     world.register(FastHits())
     world.register(LogAddExp2())
     world.register(PwmToMappingInit())
     world.register_fragment(ScoreThreshold())
+    world.register_fragment(TensorToIndices())
